@@ -24,7 +24,12 @@ Bad(e) ==
                 [] e.op = "mul" -> GMul(c, e.k, A)
                 [] e.op = "muladd" -> GAdd(c, GMul(c, e.ka, A), GMul(c, e.kb, B))
                 [] OTHER -> GInf
-  IN  IF ~e.out.ok THEN {"raised-" \o e.out.exc}
+  IN  \* "eqx": == / != between the same coordinates on two DIFFERENT curves over one field (a sibling curve through the same
+      \* point), in every combination of representations and in both operand orders.  Points of different curves are never
+      \* equal (the class's own contract); what the property fixes is that the answer cannot depend on the representation.
+      IF e.op = "eqx" THEN (IF \A j \in 1..Len(e.outs) : e.outs[j] = e.outs[1] THEN {}
+                            ELSE {"equality-across-curves-depends-on-representation"})
+      ELSE IF ~e.out.ok THEN {"raised-" \o e.out.exc}
       ELSE IF e.op = "eq" THEN (IF e.out.val = (A = B) THEN {} ELSE {"equality-disagrees-with-denoted-points"})
       ELSE IF Pt(e.out) = want THEN {}
       ELSE IF ~e.out.inf /\ want # GInf /\ (e.out.x % c.p) = want[1] /\ (e.out.y % c.p) = want[2]
